@@ -25,7 +25,9 @@ def value(opt, kind, src, variant, defaults):
         return (not d) if flip else d
     if kind == "str":
         # two words: a string value must arrive in one piece, whatever it contains
-        # (a command-line value may begin with '@' like any other character)
+        # (a command-line value may begin with '@' like any other character - and it may be the empty string)
+        if src == "cli" and variant == 1 and opt == "rst.prefix":
+            return ""
         return ("@" if src == "cli" else "") + "%s_%s w2" % (src, short(opt))
     if kind == "list":
         return [("@" if src == "cli" else "") + "%s_pat1" % src, "%s_pat2" % src]
